@@ -17,6 +17,9 @@ from dippy.cli import Classification, HandlerContext
 
 COMMANDS = ["python", "python3"] + [f"python3.{v}" for v in range(8, 20)]
 
+# "python3 script.py -h" runs the script: -h after other words is not a help query
+RUNS_SCRIPTS = True
+
 # === Safe Module Whitelist ===
 # Only modules that cannot perform I/O, execute code, or mutate external state.
 # When in doubt, leave it out.
